@@ -126,13 +126,21 @@ type MResult struct {
 	Keys     map[common.Address][]string // registered variable names per account
 	TopOK    bool
 	TopRet   []byte
-	Answered int // number of answers consumed
+	Tops     []MTop // one entry per top-level invocation
+	Answered int    // number of answers consumed
 	// frames that ran / failed (by frame id)
 	Ran     map[int]bool
 	Failed  map[int]bool
 	Created []common.Address
 	// storage slots whose value the statement does not determine (RETURNDATASIZE after a join-point failure)
 	Unjudged map[common.Address]map[uint64]bool
+}
+
+// MTop is the outcome of one top-level invocation.
+type MTop struct {
+	OK       bool
+	Ret      []byte
+	Answered int
 }
 
 type model struct {
@@ -144,6 +152,7 @@ type model struct {
 	static   map[int]bool
 	depthOf  map[int]int
 	burntAll bool // the join point just fired left no gas
+	jpOn     bool
 }
 
 type mctx struct {
@@ -189,22 +198,40 @@ func (s *Scn) InitialWorld() *MWorld {
 	return w
 }
 
-// Run interprets the scenario with the given sequence of join-point answers.
+// Model interprets one top-level invocation of the scenario with the given sequence of join-point answers.
 func Model(s *Scn, answers []Answer) *MResult {
-	m := &model{s: s, w: s.InitialWorld(), answers: answers}
-	m.res = &MResult{Journal: map[common.Address]map[string]map[int][][]byte{}, BalJ: map[common.Address]map[int][][]byte{}, Keys: map[common.Address][]string{},
-		Ran: map[int]bool{}, Failed: map[int]bool{}, Unjudged: map[common.Address]map[uint64]bool{}}
-	root := FrameAddr(s.Root.ID)
-	top := mctx{addr: world.Origin, depth: 0, node: -1}
-	ok, _, ret := m.call(nil, top, KCall, root, s.Root, valueOf(s.TopValue), CallData(99, s.TopInLen))
-	m.res.TopOK, m.res.TopRet = ok, ret
-	m.res.World = m.w
-	m.res.Answered = m.next
-	return m.res
+	m := NewModel(s)
+	m.Invoke(s.JPOn, answers)
+	return m.Res()
 }
 
+// ModelSeq is the reference interpreter over several consecutive top-level invocations on one EVM and state.
+type ModelSeq = model
+
+// NewModel prepares the interpreter on the scenario's initial world.
+func NewModel(s *Scn) *ModelSeq {
+	m := &model{s: s, w: s.InitialWorld()}
+	m.res = &MResult{Journal: map[common.Address]map[string]map[int][][]byte{}, BalJ: map[common.Address]map[int][][]byte{}, Keys: map[common.Address][]string{},
+		Ran: map[int]bool{}, Failed: map[int]bool{}, Unjudged: map[common.Address]map[uint64]bool{}}
+	return m
+}
+
+// Invoke interprets one more top-level call (Origin -> root contract). answers are consumed from the start.
+func (m *model) Invoke(jpOn bool, answers []Answer) {
+	m.jpOn, m.answers, m.next = jpOn, answers, 0
+	root := FrameAddr(m.s.Root.ID)
+	top := mctx{addr: world.Origin, depth: 0, node: -1}
+	ok, _, ret := m.call(nil, top, KCall, root, m.s.Root, valueOf(m.s.TopValue), CallData(99, m.s.TopInLen))
+	m.res.TopOK, m.res.TopRet = ok, ret
+	m.res.Tops = append(m.res.Tops, MTop{OK: ok, Ret: ret, Answered: m.next})
+	m.res.World = m.w
+	m.res.Answered = m.next
+}
+
+func (m *model) Res() *MResult { return m.res }
+
 func (m *model) bound(a common.Address) (int, bool) {
-	if !m.s.JPOn {
+	if !m.jpOn {
 		return 0, false
 	}
 	var id = -1
@@ -238,10 +265,10 @@ func (m *model) transfer(from, to common.Address, v uint64, idx int) {
 
 // fire runs the Aspect executions of one join point; returns the failing answer (if any) and the last return data.
 func (m *model) fire(pre bool, contract, from common.Address, data []byte, value uint64, idx int, ret []byte, errClass string) (failed bool, ans Answer) {
+	m.burntAll = false
 	if _, ok := m.bound(contract); !ok {
 		return false, Answer{}
 	}
-	m.burntAll = false
 	for i := 0; i < m.s.NAspects; i++ {
 		a := m.answer()
 		if a.Kind == 4 && i > 0 {
@@ -377,17 +404,17 @@ func (m *model) call(callerFrame *Frame, cx mctx, kind Kind, to common.Address, 
 		return true, false, fret
 	default: // creates
 		n := newNode()
+		var initCode []byte
+		if callerFrame != nil {
+			initCode = m.s.InitCode(callerFrame)
+		}
+		n.Data = initCode
 		if w.bal(cx.addr).Cmp(amt) < 0 {
 			n.Refused = "insufficient balance"
 			return false, false, nil
 		}
 		nonce := w.Nonce[cx.addr]
 		w.Nonce[cx.addr] = nonce + 1
-		var initCode []byte
-		if callerFrame != nil {
-			initCode = m.s.InitCode(callerFrame)
-		}
-		n.Data = initCode
 		addr := CreateAddr(kind, cx.addr, nonce, callerID, initCode)
 		n.Created = addr
 		if w.Nonce[addr] != 0 || len(w.Code[addr]) != 0 {
@@ -415,7 +442,7 @@ func (m *model) call(callerFrame *Frame, cx mctx, kind Kind, to common.Address, 
 			return false, false, nil
 		}
 		w.Code[addr] = fret
-		n.OK = true
+		n.OK, n.Ret = true, fret // the entry point hands the deployed code back
 		m.res.Created = append(m.res.Created, addr)
 		return true, false, nil
 	}
@@ -495,7 +522,11 @@ func (m *model) run(f *Frame, cx mctx) (ok, reverted bool, ret []byte) {
 		case TgCodeless:
 			to = Codeless
 		}
-		cok, fault, cret := m.call(f, cx, c.Kind, to, c.Child, valueOf(c.Value), CallData(f.ID, c.InLen))
+		child := c.Child
+		if c.Target == TgSelf {
+			to, child = FrameAddr(f.ID), &Frame{ID: f.ID, Term: TStop}
+		}
+		cok, fault, cret := m.call(f, cx, c.Kind, to, child, valueOf(c.Value), CallData(f.ID, c.InLen))
 		if fault {
 			return fail()
 		}
